@@ -1245,6 +1245,15 @@ MUTANTS = [
     dict(id="C02.f-upgrade-returns-early-unless-exclusive", prop="C02", file=CG + "database/snapshot.rs",
          old="        if matches!(self.lock.as_ref(), Some(QueryLock::Exclusive(_))) {", new="        if !(matches!(self.lock.as_ref(), Some(QueryLock::Exclusive(_)))) {",
          expect="C02.f/Snapshot::upgrade_to_exclusive"),
+    dict(id="C06.f-repairing-callers-are-not-registered", prop="C06", file=CG + "register_callee.rs",
+         old="                let computing = caller.computing();\n", new="                if !caller.require_value() {\n                    return None;\n                }\n\n                let computing = caller.computing();\n",
+         expect="C06.f/register_callee/every-query-caller-is-registered"),
+    dict(id="C01.r-abort-callee-swap-remove-on-the-ordered-list", prop="C01", file=CG + "computing.rs",
+         old="                        self.order.remove(i);", new="                        self.order.swap_remove(i);",
+         expect="C01.r/CalleeOrder/order-preserving-updates"),
+    dict(id="C09.g-fetch-entry-drops-the-member-that-trips-the-threshold", prop="C09", file=ST + "key_of_set_map/cache.rs",
+         old="            new_set.insert_element(element);\n            count += 1;\n", new="            count += 1;\n            if count <= 1024 {\n                new_set.insert_element(element);\n            }\n",
+         expect="C09.g/fetch_entry/overlays-added-and-removed"),
     # ------------------------------------------------------------------ C09.f (D5)
     dict(id="C09.f-D5-fold-heap-in-arbitrary-order", prop="C09", file=ST + "key_of_set_map/cache.rs",
          old="""        let mut ordered = log.iter().collect::<Vec<_>>();
